@@ -1,4 +1,5 @@
 import Bmc.Proofs.C08
+import Bmc.Proofs.GenEnc.TranslatedOk
 import Bmc.Proofs.GenEnc.GetSensorReadingReq
 import Bmc.Proofs.GenEnc.GetDCMICapabilitiesInfoReq
 import Bmc.Proofs.GenEnc.GetDCMISensorInfoReq
@@ -12,6 +13,7 @@ import Bmc.Proofs.GenEnc.SetSessionPrivilegeLevelReq
 import Bmc.Proofs.GenEnc.OpenSessionReq
 import Bmc.Proofs.GenEnc.RAKPMessage3
 import Bmc.Proofs.GenEnc.RAKPMessage1
+import Bmc.Proofs.GenEnc.V1Session
 import Bmc.Proofs.GenEnc.Message
 import Bmc.Proofs.GenEnc.GetPowerReadingReq
 import Bmc.Proofs.GenEnc.V2Session
@@ -26,6 +28,8 @@ import Bmc.Proofs.GenEnc.V2Session
 #print axioms Bmc.Proofs.C08.rakp1_toolong
 #print axioms Bmc.Proofs.C08.rakp1_reencode
 #print axioms Bmc.Proofs.C08.aes_roundtrip
+#print axioms Bmc.Proofs.GenEnc.translated_ok
+#print axioms Bmc.Proofs.GenEnc.uninterpreted_ok
 #print axioms Bmc.Proofs.GenEnc.GetSensorReadingReq_enc_eq
 #print axioms Bmc.Proofs.GenEnc.GetDCMICapabilitiesInfoReq_enc_eq
 #print axioms Bmc.Proofs.GenEnc.GetDCMISensorInfoReq_enc_eq
@@ -41,6 +45,7 @@ import Bmc.Proofs.GenEnc.V2Session
 #print axioms Bmc.Proofs.GenEnc.RAKPMessage3_enc_eq
 #print axioms Bmc.Proofs.GenEnc.RAKPMessage1_enc_eq
 #print axioms Bmc.Proofs.GenEnc.RAKPMessage1_enc_eq_setup
+#print axioms Bmc.Proofs.GenEnc.V1Session_enc_eq
 #print axioms Bmc.Proofs.GenEnc.Message_enc_eq
 #print axioms Bmc.Proofs.GenEnc.GetPowerReadingReq_enc_eq_any
 #print axioms Bmc.Proofs.GenEnc.GetPowerReadingReq_enc_eq
